@@ -379,7 +379,9 @@ func Undefined() *Node { return &Node{Major: 7, AI: 0xff, Val: 23} }
 func Wrap(kid *Node) *Node { return Bstr(kid.Encode()) }
 
 // IsNull reports null/undefined.
-func (n *Node) IsNull() bool { return n.Major == 7 && (n.Val == 22 || n.Val == 23) && n.AI < 24 || n.Major == 7 && n.AI == 0xff && (n.Val == 22 || n.Val == 23) }
+func (n *Node) IsNull() bool {
+	return n.Major == 7 && (n.Val == 22 || n.Val == 23) && n.AI < 24 || n.Major == 7 && n.AI == 0xff && (n.Val == 22 || n.Val == 23)
+}
 
 // Inner decodes the content of a byte string as CBOR.
 func (n *Node) Inner() (*Node, error) {
